@@ -70,7 +70,7 @@ func factsRaftGlue() {
 	} else {
 		known("start_loads_snapshot", "bool", b(strings.Contains(stt, "snap, err := this.wal.Snapshot()") &&
 			strings.Contains(stt, "if !etcdRaft.IsEmptySnap(snap) { if err := this.processSnapshotFn(snap.Data); err != nil { return err } }") &&
-			strings.Contains(stt, "go this.run()")), "Start loads the stored snapshot before the loop starts")
+			(strings.Contains(stt, "go this.run()") || strings.Contains(stt, "go func() { defer close(this.done) this.run() }()"))), "Start loads the stored snapshot before the loop starts")
 	}
 	sn, f4 := bodyText("storage/raft/group.go", "", "startRaftNode")
 	if f4 == nil {
